@@ -1,6 +1,7 @@
 import J5V.Json.EscapeProofs
 import J5V.Codec.ScalarProofs
 import J5V.Codec.Encode
+import J5V.Generated.CodecFacts
 /-!
 # C08 — the encoder emits well-formed JSON in the documented wire format
 
@@ -67,5 +68,28 @@ example : appendString [0xF0, 0x9F, 0x98, 0x80, 0x01] =
     .ok ([0x22, 0xF0, 0x9F, 0x98, 0x80] ++ ascii "\\u0001\"") := by decide
 example : appendString [0xFF] = .err "invalid UTF-8" := by decide
 example : finite64 0x7ff8000000000001 = false := by decide
+
+/-! ## source facts
+Obligations over `J5V.Generated.Codec` (regenerated from /repo's current source by extract/codec.go at
+every check run). Maintained by codec-go; they tie the model's case analysis to the switches in
+the Go source. -/
+section SourceFacts
+open J5V.Generated.Codec
+
+/-- the constants of the wire format which the model hard-codes -/
+theorem C08_src_formats :
+    dateStringFormat = "%04d-%02d-%02d" ∧ timestampEncodeLayout = "time.RFC3339Nano" := by decide
+
+/-- `encodeValue` has an arm for every kind of field and `encodeScalarField` for every Go type
+`scalarGoFromReflect` can produce; the fall-through arms return errors. -/
+theorem C08_src_encode_switch_coverage :
+    encodeValueCases = ["AnyField", "ArrayField", "EnumField", "MapField", "ObjectField", "OneofField", "ScalarField"] ∧
+    encodeScalarGoTypes = ["*date_j5t.Date", "*decimal_j5t.Decimal", "[]byte", "bool", "float32", "float64",
+      "int32", "int64", "string", "time.Time", "uint32", "uint64"] ∧
+    encodeValueDefaultIsError = true ∧ encodeScalarDefaultIsError = true := by decide
+
+theorem C08_src_extractor_ok : codecExtractorOk = true := by decide
+
+end SourceFacts
 
 end J5V.Props.C08
